@@ -23,6 +23,7 @@
   that one sequential pass.
 -/
 import SfModel.Gsm
+import SfModel.GsmEnc
 import SfModel.Block
 import SfModel.BlockFile
 import SfModel.Oki
@@ -104,6 +105,22 @@ def chunkOf (ty : Ty) : Nat := if ty = .s16 then 0 else 4096
 def readCall (h : RHandle) (cv : Conv) (ty : Ty) (n : Nat) : RHandle × List Int × Nat :=
   let (h1, d, cnt) := h.read (chunkOf ty) n
   (h1, d.map (toCaller cv ty), cnt)
+
+/-! ## write side: the block writer with the real encoder -/
+
+/-- `gsm610_write_block` + `gsm610_encode_block` / `gsm610_wav_encode_block` as an instance of the generic block writer;
+    the encoder state (`struct gsm_state`) runs through the blocks -/
+def writer (c : Cfg) : Writer State := { spb := c.spb, ch := 1, enc := fun st buf => encodeBlock c.wav st buf }
+
+def writeInit (c : Cfg) : WState State := (writer c).init (if c.wav then State.initWav else State.init)
+
+/-- one `sf_write_T` / `sf_writef_T` call with the caller's values -/
+def writeCall (c : Cfg) (cv : Conv) (ty : Ty) (st : WState State) (vs : List Int) : WState State :=
+  wcall (writer c) (chunkOf ty) st (vs.map (ofCaller cv ty))
+
+/-- the bytes of the data region after `gsm610_close` (a partly filled block is completed with the zeros the
+    `memset` after the previous encode left there) -/
+def closeBytes (c : Cfg) (st : WState State) : List Byte := ((writer c).close true st).bytes
 
 /-- `sf_seek` on a GSM handle: the first statement after the handle validation is
     `if (! psf->sf.seekable) { psf->error = SFE_NOT_SEEKABLE ; return PSF_SEEK_ERROR ; }` and `gsm610_init` cleared
